@@ -1,6 +1,6 @@
 (* Pins for C18: restated statements + assumptions. Generated once by tools/mkpins.py, then committed. *)
 Require Import VT.Tac VT.ListN VT.Utf8 VT.Attrs VT.Cell VT.Row VT.Grid VT.Screen VT.Vte VT.Perform VT.Parser VT.Term.
-Require Import VT.VteInv VT.VteChunk VT.ParseSer VT.ScreenInv VT.EventSpec VT.SeqSpec VT.EventSeq.
+Require Import VT.VteInv VT.VteChunk VT.ParseSer VT.ScreenInv VT.EventSpec VT.SeqSpec VT.EventSeq VT.Chunking.
 Require Import VT.Props.C18.
 Open Scope N_scope.
 Check C18_exact : forall rz s a s' evs,
@@ -11,7 +11,7 @@ Check C18_exact_all : forall rz acts s evs0 s' evs,
 Print Assumptions C18_exact_all.
 Check C18_process : forall p bs q,
   process p bs = Ok q ->
-  log q = log p ++ events_all (resizing p) (scr p) (snd (advance (vt p) bs)).
+  log q = log p ++ events_all (resizing p) (scr p) (snd (advance (vt p) (delivered p bs))).
 Print Assumptions C18_process.
 Check C18_events_all_app : forall rz a1 a2 s s1 e1,
   perform_all rz s a1 [] = Ok (s1, e1) ->
@@ -121,34 +121,39 @@ Check C18_char_vte : forall p c,
   advance p (utf8_encode c) = (p, [ground_action c]).
 Print Assumptions C18_char_vte.
 Check C18_csi : forall p mk G ins f q,
+  pend p = [] ->
   ground (vt p) -> csi_ok mk G ins f ->
   process p (csi_bytes mk G ins f) = Ok q ->
   ground (vt q) /\
   log q = log p ++ events_of (resizing p) (scr p) (ACsi (params_val G) (mk ++ ins) false f).
 Print Assumptions C18_csi.
 Check C18_esc : forall p ins f q,
+  pend p = [] ->
   ground (vt p) -> esc_ok ins f ->
   process p (esc_bytes ins f) = Ok q ->
   ground (vt q) /\
   log q = log p ++ events_of (resizing p) (scr p) (AEsc ins false f).
 Print Assumptions C18_esc.
 Check C18_osc_bel : forall p fs,
+  pend p = [] ->
   ground (vt p) -> osc_ok fs ->
   process p (osc_bytes_bel fs) =
-  Ok (mkParser p_init (scr p) (log p ++ osc_events fs) (resizing p)).
+  Ok (mkParser p_init (scr p) (log p ++ osc_events fs) (resizing p) []).
 Print Assumptions C18_osc_bel.
 Check C18_osc_st : forall p fs,
+  pend p = [] ->
   ground (vt p) -> osc_ok fs ->
   process p (osc_bytes_st fs) =
-  Ok (mkParser p_init (scr p) (log p ++ osc_events fs) (resizing p)).
+  Ok (mkParser p_init (scr p) (log p ++ osc_events fs) (resizing p) []).
 Print Assumptions C18_osc_st.
 Check C18_char : forall p c q,
+  pend p = [] ->
   ground (vt p) -> is_scalar c = true -> c <> 27 ->
   process p (utf8_encode c) = Ok q ->
   vt q = vt p /\ log q = log p ++ events_of (resizing p) (scr p) (ground_action c).
 Print Assumptions C18_char.
 Check C18_reported_sequence : forall p bs v' a q,
   resizing p = false ->
-  advance (vt p) bs = (v', [a]) -> reported a = true -> process p bs = Ok q ->
+  advance (vt p) (delivered p bs) = (v', [a]) -> reported a = true -> process p bs = Ok q ->
   scr q = scr p /\ log q = log p ++ events_of false (scr p) a /\ events_of false (scr p) a <> [].
 Print Assumptions C18_reported_sequence.
